@@ -122,3 +122,24 @@ package reconciling
 //@ modifies r.lines, elems(summary)
 //@ ensures implies(nonnil(result), same(r.lines, old(r.lines)))
 //@ ensures implies(isnil(result), spliced(old(r.lines), r.lines, r.lastLinePointer, max(1, len(summary))))
+
+// ---------------------------------------------------------------------------------------------
+// style.go — property C11: the style of inserted text.
+
+// determine: the indentation a record exhibits is the indentation sequence of its first indented line that is not
+// blank (a whitespace-only line before or after the record says nothing about how the record indents its entries);
+// the line ending is the one of the block's first line. Without such a line the defaults (four spaces, LF) stay,
+// marked as not explicit.
+//@ spec indented(l txt.Line) bool = !txt.blank(l) && txt.indentOf(l) != ""
+//@ func determine
+//@ requires typeis(r, *klog.record) && typeis(r.(*klog.record).date, *klog.date) && typeis(b, *txt.block)
+//@ requires forall(i, 0, len(r.(*klog.record).entries), klog.ekind(r.(*klog.record).entries[i]))
+//@ let ls = b.(*txt.block).lines
+//@ ensures fresh(result)
+//@ ensures forall(k, 0, len(ls), implies(indented(ls[k]) && forall(j, 0, k, !indented(ls[j])), result.indentation.isExplicit && result.indentation.value == txt.indentOf(ls[k])))
+//@ ensures implies(forall(k, 0, len(ls), !indented(ls[k])), !result.indentation.isExplicit && result.indentation.value == "    ")
+//@ ensures implies(len(ls) > 0 && ls[0].LineEnding != "", result.lineEnding.isExplicit && result.lineEnding.value == ls[0].LineEnding)
+//@ ensures implies(len(ls) == 0 || ls[0].LineEnding == "", !result.lineEnding.isExplicit && result.lineEnding.value == "\n")
+//@ ensures result.dateUseDashes.isExplicit && result.dateUseDashes.value == r.(*klog.record).date.(*klog.date).format.UseDashes
+//@ loop 1 invariant fresh(s)
+//@ loop 2 invariant fresh(s) && !s.indentation.isExplicit && s.indentation.value == "    " && forall(k, 0, rangeindex+1, !indented(b.(*txt.block).lines[k]))
